@@ -61,7 +61,7 @@ theorem missingBytes_get (k : Nat) : ∀ (flags : List Bool) f, flags.length ≤
         congr 4
         omega
 
-def naFlags (xs : List Value) : List Bool := xs.map fun x => match x with | .na => true | _ => false
+def naFlags (xs : List Value) : List Bool := xs.map isNa
 
 theorem missingOf_eq (xs : List Value) : missingOf xs = missingBytes xs.length (naFlags xs) := rfl
 
@@ -69,7 +69,6 @@ theorem missingOf_length (xs : List Value) : (missingOf xs).length = (xs.length 
   rw [missingOf_eq, missingBytes_length _ _ (by simp [naFlags])]
   simp [naFlags]
 
-theorem isNa_eq (x : Value) : (match x with | .na => true | _ => false) = isNa x := by cases x <;> rfl
 
 theorem missingAt_missingOf (xs : List Value) (i : Nat) (h : i < xs.length) :
     missingAt (missingOf xs) i = some (isNa xs[i]) := by
@@ -80,6 +79,6 @@ theorem missingAt_missingOf (xs : List Value) (i : Nat) (h : i < xs.length) :
   rw [List.getElem?_take_of_lt hi, List.getElem?_drop]
   have : 8 * (i / 8) + i % 8 = i := by omega
   rw [this]
-  simp [naFlags, h, isNa_eq]
+  simp [naFlags, h]
 
 end HailVerif.ValueEnc
